@@ -24,6 +24,10 @@ type Violation struct {
 	Invariant string `json:"invariant"`
 	Signature string `json:"signature,omitempty"` // cause signature (known-finding matching)
 	Message   string `json:"message"`
+	// NoShrink: the violation cannot be re-observed in the same process (the race detector reports each
+	// race once per process); the replay file is written from the original run and verified by the
+	// driver in a fresh process.
+	NoShrink bool `json:"no_shrink,omitempty"`
 }
 
 func (v *Violation) Class() string { return v.Property + "/" + v.Invariant + "/" + v.Signature }
@@ -68,6 +72,7 @@ type ReplayFile struct {
 	Trace     []string      `json:"trace"`
 	Shrunk    string        `json:"shrunk"`
 	Known     []string      `json:"known_signatures"` // listed findings in force when the run was recorded
+	SeedOnly  bool          `json:"seed_only,omitempty"` // the run is re-created from its seed (a run that crashes the process cannot be shrunk)
 }
 
 type Found struct {
@@ -226,6 +231,9 @@ func Main(engine string, run RunFunc) (exit int) {
 			p[x] = true
 		}
 		ch := choice.NewStrictReplay(rf.Draws)
+		if rf.SeedOnly {
+			ch = choice.NewSeeded(rf.Seed)
+		}
 		kn := map[string]bool{}
 		for _, x := range rf.Known {
 			kn[x] = true
@@ -302,6 +310,10 @@ func Main(engine string, run RunFunc) (exit int) {
 		}
 		seed := base*1_000_000 + first + uint64(i)*stride
 		rep.LastSeed = seed
+		if out != "" {
+			// a run that kills the process (runtime fatal error) leaves its seed behind
+			_ = os.WriteFile(out+".progress", []byte(strconv.FormatUint(seed, 10)), 0o644)
+		}
 		ch := choice.NewSeeded(seed)
 		sample := len(rep.Samples) < 2 && i%7 == 3
 		res, _ := safeRun(run, &Env{Ch: ch, Props: props, Tier: tier, Variant: rep.Variant, Verbose: sample, Known: known})
@@ -343,6 +355,19 @@ func Main(engine string, run RunFunc) (exit int) {
 			continue
 		}
 		seenClass[v.Class()] = true
+		if v.NoShrink {
+			rf := ReplayFile{Engine: engine, Variant: rep.Variant, Property: v.Property, Props: propList, Tier: tier, Seed: seed,
+				Violation: v, Draws: ch.Trace, Trace: res.Log, Shrunk: "not shrunk: only observable once per process", Known: knownList}
+			path := ""
+			if replayDir != "" {
+				path = filepath.Join(replayDir, fmt.Sprintf("%s-%s-%d.json", v.Property, engine, seed))
+				b, _ := json.MarshalIndent(rf, "", " ")
+				_ = os.MkdirAll(replayDir, 0o755)
+				_ = os.WriteFile(path, b, 0o644)
+			}
+			rep.Found = append(rep.Found, Found{Violation: v, Seed: seed, Replay: path})
+			break // later runs of this process cannot report the same race again
+		}
 		// shrink
 		ks := ch.Ks()
 		env := func(c *choice.Chooser, verbose bool) *Env {
@@ -386,6 +411,9 @@ func Main(engine string, run RunFunc) (exit int) {
 		}
 	}
 	rep.WallS = time.Since(start).Seconds()
+	if out != "" {
+		_ = os.Remove(out + ".progress")
+	}
 	return 0
 }
 
